@@ -60,7 +60,7 @@ class C14Spec(explore.Spec):
         # the application lets traffic in before it calls start_persistence() (also in a later life, on an existing file)
         out += [{"version": "2.2", "persistence": fmt, "cb": "record", "defer_start": True, "depth": 5 if tier == "quick" else 6} for fmt in ("json", "pickle")]
         # the id range is exhausted (node 254 is known): an id request that cannot be served is one more message kind
-        out += [{"version": v, "persistence": fmt, "cb": "record", "focus": "ids-exhausted", "depth": 5} for fmt in ("json", "pickle") for v in (("2.2",) if tier == "quick" else ("1.4", "2.2"))]
+        out += [{"version": v, "persistence": fmt, "cb": "record", "focus": "ids-exhausted", "depth": 5} for fmt in ("json", "pickle") for v in ("2.2",)]
         return out
 
     def alphabet(self, cfg):
@@ -470,7 +470,7 @@ class C14AsyncSpec(explore.Spec):
     has_at_state = True
 
     def configs(self, tier):
-        return [{"version": "2.2", "persistence": fmt, "flavour": "async"} for fmt in ("json", "pickle")] + [{"version": "2.2", "persistence": "json", "flavour": "async", "kind": "tcp"}]
+        return [{"version": "2.2", "persistence": fmt, "flavour": "async"} for fmt in ("json", "pickle")] + [{"version": "2.2", "persistence": "json", "flavour": "async", "kind": "tcp", "depth": 4}]
 
     def make_world(self, cfg):
         return AsyncPersistWorld(cfg)
